@@ -119,6 +119,10 @@ func firstLines(s string, n int) string {
 
 // discharge solves all obligations of vc: first as one group, then individually on failure.
 func (vc *VC) discharge(timeoutMs int, par int, keepDir string) {
+	vc.dischargeWith(timeoutMs, par, keepDir, nil)
+}
+
+func (vc *VC) dischargeWith(timeoutMs int, par int, keepDir string, which []string) {
 	obs := vc.obligs
 	if len(obs) == 0 {
 		return
@@ -126,8 +130,12 @@ func (vc *VC) discharge(timeoutMs int, par int, keepDir string) {
 	q := func(os []*Oblig) map[string]string {
 		return map[string]string{"z3": vc.render(os, "z3", timeoutMs), "cvc5": vc.render(os, "cvc5", timeoutMs)}
 	}
-	if len(obs) > 1 {
-		r := raceSolve(q(obs), "group", timeoutMs, false, nil)
+	if len(obs) > 1 && which == nil {
+		gt := timeoutMs
+		if gt > 4000 {
+			gt = 4000
+		}
+		r := raceSolve(q(obs), "group", gt, false, []string{"z3-new", "cvc5"})
 		if r.status == "unsat" {
 			for _, o := range obs {
 				o.Status, o.Solver, o.Ms = "unsat", r.solver+"(group)", r.ms/int64(len(obs))
@@ -144,7 +152,7 @@ func (vc *VC) discharge(timeoutMs int, par int, keepDir string) {
 			defer wg.Done()
 			defer func() { <-sem }()
 			qs := q([]*Oblig{o})
-			r := raceSolve(qs, o.Name, timeoutMs, true, nil)
+			r := raceSolve(qs, o.Name, timeoutMs, which == nil, which)
 			o.Status, o.Solver, o.Ms = r.status, r.solver, r.ms
 			if r.status == "sat" {
 				o.Model = r.output
